@@ -56,7 +56,7 @@ def is_quoted(text:str, triple:bool=True) -> bool:
     @param triple: Also match tripple quoted strings.
     """
     return bool(_QUOTED_STR_REGEX.match(text)) or \
-        (triple and bool(_TRIPLE_QUOTED_STR_REGEX.match(text)))
+        (triple and (text in ('""""""', "''''''") or bool(_TRIPLE_QUOTED_STR_REGEX.match(text))))
 
 def unquote_str(text:str, triple:bool=True) -> str:
     """
